@@ -370,6 +370,21 @@ func body(c *hk.Ctx) {
 		h.DelayMs = []int{0, 0, 10, 2000}[c.W(4, "hook-delay")]
 		addHook(h)
 	}
+	if prop == "C10" {
+		// the end of a run that "fails" after the point of no return: a critical hook failing at
+		// enter_CONFIGURED / after_STOP_ACTIVITY (the run is over all the same)
+		stopReached := false
+		for _, m := range reach {
+			if m == "after_STOP_ACTIVITY" {
+				stopReached = true
+			}
+		}
+		if stopReached && c.W(3, "late-critical-failure-at-stop") == 2 {
+			m := []string{"after_STOP_ACTIVITY", "enter_CONFIGURED"}[c.W(2, "where")]
+			tr := trigExpr(m, []int{0, 1, 50}[c.W(3, "late-weight")])
+			addHook(&hookSpec{Trigger: tr, Await: tr, Critical: true, Fail: true})
+		}
+	}
 	for _, h := range sc.Hooks {
 		w.groupN[h.Trigger]++
 	}
